@@ -47,6 +47,7 @@ def run(ctx):
     ctx.rule(cc.seed_inputs_deterministic, "R-C10-seed-process-independent", tool, prog.cls("command_line._FeatureProcessorDataset"))
     ctx.rule(reseed_first)
     ctx.rule(order, tool)
+    ctx.rule(computer_reuse)
 
 
 def membership_over_text(ctx, tool, R="R-C10-manifest-exact"):
@@ -79,6 +80,17 @@ def membership_over_text(ctx, tool, R="R-C10-manifest-exact"):
                         "another listed id (utt1 in utt12, 7 in spk7-a) is taken as already done and silently skipped on resume"
                         % (astq.text(c)[:60], astq.text(src)[:50]), what, robust=True)
     ctx.ok(R, tool.loc(), what, "%d membership test(s) inspected" % n)
+
+
+def computer_reuse(ctx, R="R-C10-seed-process-independent"):
+    """The tool builds one frame computer per process and re-uses it for every utterance that process handles; which utterances
+    share a computer depends on --num-workers and on where a run was interrupted.  The output is independent of both only if a
+    computer keeps nothing from one utterance to the next: the reset rule of the frame computers (C04) is a premise of this
+    property and is re-established here for both computer classes."""
+    from . import c04
+    prog = ctx.prog
+    for cname in ("compute.ShortTimeFourierTransformFrameComputer", "compute.ShortIntegrationFrameComputer"):
+        c04.reset(ctx, prog.cls(cname), R)
 
 
 def _is_manifest(n):
